@@ -334,7 +334,13 @@ func (cacheSuite) Run(raw json.RawMessage) []Step {
 	}
 	state := abstractCache(cache, e.known)
 	line := strings.Join([]string{"cache-seq", "1", e.revsField(), strings.Join(builds, ";"), state, strings.Join(outs, ",")}, "\t")
-	steps := []Step{{Line: line, Go: state + "|" + strings.Join(outs, ","), Mode: "verdict", Tags: tags,
+	interrupted := false
+	for _, o := range outs {
+		if o == "crash" {
+			interrupted = true
+		}
+	}
+	steps := []Step{{Line: line, Go: state + "|" + strings.Join(outs, ","), Mode: "verdict", Tags: tags, Trivial: !interrupted,
 		Desc: fmt.Sprintf("revs=%s builds=%s", e.revsField(), strings.Join(builds, ";"))}}
 	// concurrent recovery (not modelled as a schedule: the oracle is evaluated on what the real code did)
 	if c.Conc > 0 && !strings.Contains(state, "=RP") && !strings.Contains(state, "=RX") {
